@@ -88,6 +88,12 @@ func (m *MdatBox) Size() uint64 {
 
 // AddSampleData -  a sample data to an mdat box
 func (m *MdatBox) AddSampleData(s []byte) {
+	if len(m.DataParts) > 0 {
+		// Size and Encode only use DataParts when it is in use, so the data must become a further part.
+		// The data is copied, as it is when appended to Data.
+		m.DataParts = append(m.DataParts, append([]byte(nil), s...))
+		return
+	}
 	m.Data = append(m.Data, s...)
 }
 
